@@ -24,6 +24,9 @@ Proof. intros H. unfold u64. change (2 ^ 64) with 18446744073709551616 in H. app
 Lemma u32_small x : x < 2 ^ 32 -> u32 x = x.
 Proof. intros H. unfold u32. change (2 ^ 32) with 4294967296 in H. apply N.mod_small. exact H. Qed.
 
+Lemma u64_of_int_small z : (0 <= z < two64)%Z -> u64_of_int z = Z.to_N z.
+Proof. intros H. unfold u64_of_int. rewrite Z.mod_small by exact H. reflexivity. Qed.
+
 Lemma zlen_app a b : zlen (a ++ b) = (zlen a + zlen b)%Z.
 Proof. unfold zlen. rewrite lenN_app. lia. Qed.
 
@@ -211,9 +214,9 @@ Section Proofs.
               | UvShort | UvOver _ => DErr EKeyLen a
               | UvOk x n =>
                   let o2 := (o + 1 + Z.of_N n)%Z in
+                  if u64_of_int (zlen data - o2) <? x then DErr EKeyLen a else
                   let kl := int_of_u64 x in
                   let o3 := int64 (o2 + kl) in
-                  if (zlen data <? o3)%Z then DErr EKeyLen a else
                   if kt =? keyTypeVal p then
                     match zdrop data o3 with
                     | None => DPanic
@@ -222,9 +225,9 @@ Section Proofs.
                         | UvShort | UvOver _ => DErr EValLen a
                         | UvOk y m =>
                             let o4 := (o3 + Z.of_N m)%Z in
+                            if u64_of_int (zlen data - o4) <? y then DErr EValLen a else
                             let vl := int_of_u64 y in
                             let o5 := int64 (o4 + vl) in
-                            if (zlen data <? o5)%Z then DErr EValLen a else
                             match fn a i (mkidx kt o2 kl o4 vl) with
                             | CbOk a' => decode_loop p f data fn (i + 1)%Z o5 a'
                             | CbErr e a' => DErr e a'
@@ -282,8 +285,9 @@ Section Proofs.
     rewrite int_of_u64_small by (change (2 ^ 63) with 9223372036854775808; lia).
     set (o2 := (Z.of_N (lenN pre) + 1 + Z.of_N (lenN vk))%Z).
     assert (Eo2 : o2 = Z.of_N (lenN pre + 1 + lenN vk)) by (unfold o2; lia).
+    rewrite (u64_of_int_small (zlen data - o2)) by (unfold zlen, two64; lia).
+    replace (Z.to_N (zlen data - o2) <? lenN k) with false by (unfold zlen; lia).
     rewrite (int64_small (o2 + Z.of_N (lenN k))) by (unfold two63; lia).
-    replace (zlen data <? o2 + Z.of_N (lenN k))%Z with false by (unfold zlen; lia).
     unfold rec_idx. fold vk.
     destruct (kt =? keyTypeVal p) eqn:Ekt.
     - (* value record *)
@@ -300,9 +304,10 @@ Section Proofs.
         apply zdrop_app. }
       rewrite D2. unfold vv at 1. rewrite uvarint_put by (change (2 ^ 64) with 18446744073709551616; lia).
       fold vv.
+      rewrite (u64_of_int_small (zlen data - (o2 + Z.of_N (lenN k) + Z.of_N (lenN vv)))) by (unfold zlen, two64; lia).
+      replace (Z.to_N (zlen data - (o2 + Z.of_N (lenN k) + Z.of_N (lenN vv))) <? lenN v) with false by (unfold zlen; lia).
       rewrite int_of_u64_small by (change (2 ^ 63) with 9223372036854775808; lia).
       rewrite (int64_small (o2 + Z.of_N (lenN k) + Z.of_N (lenN vv) + Z.of_N (lenN v))) by (unfold two63; lia).
-      replace (zlen data <? o2 + Z.of_N (lenN k) + Z.of_N (lenN vv) + Z.of_N (lenN v))%Z with false by (unfold zlen; lia).
       replace (mkidx kt o2 (Z.of_N (lenN k)) (o2 + Z.of_N (lenN k) + Z.of_N (lenN vv))%Z (Z.of_N (lenN v)))
         with (mkidx kt (Z.of_N (lenN pre + 1 + lenN vk)) (Z.of_N (lenN k))
                     (Z.of_N (lenN pre + 1 + lenN vk + lenN k + lenN vv)) (Z.of_N (lenN v)))
